@@ -34,6 +34,7 @@ let dispatch (name : string) (args : M.n list) : M.n list list =
   | "ASM" -> M.run_asm args
   | "OBJ" -> M.run_obj args
   | "OBJB" -> M.run_objb args
+  | "WRITE" -> M.run_write args
   | "LC3" -> M.run_lc3 args
   | "SRC" -> M.run_src args
   | "DBG" -> M.run_dbg args
